@@ -833,28 +833,25 @@ Proof.
     destruct u as [t|]; constructor; [|constructor]. unfold rok, root_real; cbn. intros _; split; reflexivity. }
   unfold fresh. exact (proj1 (h_load_dir hu [] (fresh0 u ls nx) H0 I)).
 Qed.
-Lemma load_all_from_inv hu fuel : forall p s, Inv hu s ->
-  Inv hu (snd (load_all_from fuel p s)) /\ step_ok hu s (snd (load_all_from fuel p s)).
+Lemma load_node_ok hu fuel s : forall n, nok hu n -> nok hu (load_node fuel s n).
 Proof.
-  induction fuel as [|f IH]; intros p s Hi; cbn [load_all_from]; [cbn; split; [exact Hi|apply step_ok_refl]|].
-  unfold bind. destruct (get_node p s) as [[n|e] s0] eqn:E.
-  - assert (s0 = s) by (unfold get_node in E; destruct (nget p (root s)); inversion E; reflexivity). subst s0.
-    destruct (n_wh n); [cbn; split; [exact Hi|apply step_ok_refl]|].
-    destruct (node_stat s n) as [[m x ch| | |]|]; cbn [snd]; try (split; [exact Hi|apply step_ok_refl]).
-    destruct (h_load_dir hu p s Hi I) as (A1 & A2 & _).
-    set (s1 := snd (load_dir p s)) in *.
-    destruct (nget p (root s1)) as [n1|]; cbn [snd]; [|split; assumption].
-    assert (G : forall (l : list (name * node)) acc, Inv hu acc -> step_ok hu s acc ->
-              Inv hu (fold_left (fun acc (kv : name * node) => snd (load_all_from f (p ++ [fst kv]) acc)) l acc) /\
-              step_ok hu s (fold_left (fun acc (kv : name * node) => snd (load_all_from f (p ++ [fst kv]) acc)) l acc)).
-    { induction l as [|kv l IHl]; intros acc Ha Hs; cbn [fold_left]; [split; assumption|].
-      destruct (IH (p ++ [fst kv]) acc Ha) as [B1 B2]. apply IHl; [exact B1|eapply step_ok_trans; eassumption]. }
-    apply G; assumption.
-  - assert (s0 = s) by (unfold get_node in E; destruct (nget p (root s)); inversion E; reflexivity). subst s0.
-    cbn. split; [exact Hi|apply step_ok_refl].
+  induction fuel as [|f IH]; intros n Hn; cbn [load_node]; [exact Hn|].
+  destruct (n_wh n); [exact Hn|].
+  destruct (node_stat s n) as [[m x ch| | |]|]; try exact Hn.
+  set (n1 := if n_loaded n then n else match scan_children s n with Ok cs => set_loaded cs n | Err _ => n end).
+  assert (Hn1 : nok hu n1).
+  { unfold n1. destruct (n_loaded n); [exact Hn|].
+    destruct (scan_children s n) as [cs|e] eqn:E; [|exact Hn].
+    apply set_loaded_ok; [eapply scan_children_ok; eassumption|exact Hn]. }
+  apply nok_mk; [apply nok_reals; exact Hn1|].
+  pose proof (nok_ch hu n1 Hn1) as Hc. induction Hc as [|kv l H1 H2 IHl]; cbn [map]; constructor; auto.
+  cbn [snd]. apply IH; exact H1.
 Qed.
 Lemma load_all_inv hu s : Inv hu s -> Inv hu (load_all s) /\ step_ok hu s (load_all s).
-Proof. apply load_all_from_inv. Qed.
+Proof.
+  intros [Hh Hn]. unfold load_all. split; [split; [exact Hh|cbn [root]; apply load_node_ok; exact Hn]|].
+  unfold step_ok; cbn. repeat split; auto. exists []; split; [reflexivity|constructor].
+Qed.
 
 (* every operation: lower layers byte-for-byte unchanged, every logged mutation is on layer 0 *)
 Theorem lowers_untouched hu s o : Inv hu s ->
@@ -880,8 +877,8 @@ Proof.
     destruct (step_safe hu o s Hi I) as (A1 & A2 & _). fold (run_op o s) in A1, A2.
     destruct d.
     - destruct (load_all_inv hu _ A1) as [B1 B2]. destruct (IH _ B1) as [C1 C2].
-      split; [exact C1|]. eapply step_ok_trans; [exact A2|]. eapply step_ok_trans; eassumption.
-    - destruct (IH _ A1) as [C1 C2]. split; [exact C1|]. eapply step_ok_trans; eassumption. }
+      split; [exact C1|]. exact (step_ok_trans hu _ _ _ A2 (step_ok_trans hu _ _ _ B2 C2)).
+    - destruct (IH _ A1) as [C1 C2]. split; [exact C1|]. exact (step_ok_trans hu _ _ _ A2 C2). }
   cbn zeta. pose proof (fresh_inv u ls nx) as H0. fold hu in H0.
   destruct (load_all_inv hu _ H0) as [H1 H2]. destruct (G ops _ H1) as [_ H3].
   pose proof (step_ok_trans hu _ _ _ H2 H3) as (L1 & _ & (l & L2 & L3) & _).
